@@ -72,6 +72,10 @@ func selectAncestor(nodeSet NodeSet) Result {
 	result := make([]store.Cursor, 0)
 
 	for _, i := range nodeSet {
+		if isRoot(i) {
+			continue
+		}
+
 		result = appendAncestors(i.Parent(), result)
 	}
 
@@ -88,12 +92,18 @@ func selectAncestorOrSelf(nodeSet NodeSet) Result {
 	return cleanupBackwardAxis(result)
 }
 
+// The root node is the only node without a parent, and it has position 0.
+func isRoot(cursor store.Cursor) bool {
+	return cursor.Pos() == 0
+}
+
 func appendAncestors(cursor store.Cursor, result []store.Cursor) []store.Cursor {
-	if cursor.Pos() == 0 {
+	result = append(result, cursor)
+
+	if isRoot(cursor) {
 		return result
 	}
 
-	result = append(result, cursor)
 	return appendAncestors(cursor.Parent(), result)
 }
 
@@ -205,6 +215,10 @@ func selectParent(nodeSet NodeSet) Result {
 	result := make([]store.Cursor, 0)
 
 	for _, i := range nodeSet {
+		if isRoot(i) {
+			continue
+		}
+
 		result = append(result, i.Parent())
 	}
 
